@@ -40,8 +40,16 @@ class Sandbox:
         return os.path.join(self.root, *p)
 
 
-def run_pna(args, cwd, timeout=20, env=None, stdin=None, threads=None):
-    """run pna; returns dict(rc, out, err, timeout). rc 101 = Rust panic."""
+def _limit_as(nbytes):
+    def f():
+        import resource
+        resource.setrlimit(resource.RLIMIT_AS, (nbytes, nbytes))
+    return f
+
+
+def run_pna(args, cwd, timeout=20, env=None, stdin=None, threads=None, mem_limit=None):
+    """run pna; returns dict(rc, out, err, timeout). rc 101 = Rust panic.  mem_limit (bytes of address space): a
+    run-away allocation loop is stopped by the allocator (abort, rc -6) instead of eating the machine."""
     e = dict(os.environ, TMPDIR=os.path.join(cwd, "tmp") if os.path.isdir(os.path.join(cwd, "tmp")) else cwd,
              NO_COLOR="1", LANG="C.UTF-8")
     if threads:
@@ -51,7 +59,8 @@ def run_pna(args, cwd, timeout=20, env=None, stdin=None, threads=None):
     t0 = time.time()
     try:
         p = subprocess.run([pna_path()] + list(args), cwd=cwd, env=e, input=stdin, timeout=timeout,
-                           stdout=subprocess.PIPE, stderr=subprocess.PIPE)
+                           stdout=subprocess.PIPE, stderr=subprocess.PIPE,
+                           preexec_fn=_limit_as(mem_limit) if mem_limit else None)
         return {"rc": p.returncode, "out": p.stdout, "err": p.stderr, "timeout": False, "t": time.time() - t0,
                 "cmd": "pna " + " ".join(args)}
     except subprocess.TimeoutExpired as ex:
